@@ -46,6 +46,7 @@ import (
 	evmtypes "github.com/palomachain/paloma/v2/x/evm/types"
 	palomamodule "github.com/palomachain/paloma/v2/x/paloma"
 	"github.com/palomachain/paloma/v2/x/skyway/keeper"
+	schedulerkeeper "github.com/palomachain/paloma/v2/x/scheduler/keeper"
 	treasurytypes "github.com/palomachain/paloma/v2/x/treasury/types"
 	valsetkeeper "github.com/palomachain/paloma/v2/x/valset/keeper"
 	valsettypes "github.com/palomachain/paloma/v2/x/valset/types"
@@ -119,6 +120,7 @@ func setup3(t *testing.T) *env {
 		e.queued = append(e.queued, queuedMsg{ID: id, Assignee: e.assigneeOf(ctx, id)})
 	}
 	e.cons = consensuskeeper.NewMsgServerImpl(f.ConsensusKeeper)
+	e.sched = schedulerkeeper.NewMsgServerImpl(&f.SchedulerKeeper)
 	e.valset = valsetkeeper.NewMsgServerImpl(f.ValsetKeeper)
 
 	// the decorator with the real feegrant keeper on its own store (as in the first environment)
